@@ -29,6 +29,11 @@ import (
 	"verif/mc/ut"
 )
 
+// GrpcCodeSweep lists the codes of the WrapWithGrpcCode#k ops.
+// Code 0 (OK) is left out: gRPC defines OK as "no error" (status.Err() is nil),
+// so a non-nil error cannot travel with it; see DESIGN.md §4.4.
+var GrpcCodeSweep = []int{1, 2, 3, 4, 5, 6, 7, 8, 9, 10, 11, 12, 13, 14, 15, 16, 17, 99}
+
 // All is the full alphabet, simplest first within each kind.
 var (
 	Leaves   []*Op
@@ -45,6 +50,7 @@ func reg(op *Op) *Op {
 	switch {
 	case op.QuirkOf != "":
 		Quirks = append(Quirks, op)
+	case op.ExtraOnly:
 	case op.Kind == KLeaf:
 		Leaves = append(Leaves, op)
 	default:
@@ -190,6 +196,9 @@ func init() {
 	reg(&Op{Name: "New", Kind: KLeaf, Slots: safe("msg"), Class: "lib-leaf", Lib: true, Core: true,
 		Build: func(s []string, _ error, _ []error) error { return errors.New(s[0]) },
 		Model: func(s []string, _ *Node, _ []*Node) *Node { return Stack(libLeaf(s[0], s, nil)) }})
+	reg(&Op{Name: "New@colonpath", Kind: KLeaf, Slots: safe("msg"), Class: "lib-leaf", Lib: true,
+		Build: func(s []string, _ error, _ []error) error { return newAtColonSite(s[0]) },
+		Model: func(s []string, _ *Node, _ []*Node) *Node { return Stack(libLeaf(s[0], s, nil)) }})
 	reg(&Op{Name: "GoNew", Kind: KLeaf, Slots: unsafe("msg"), Class: "foreign-leaf", Core: true,
 		Build: func(s []string, _ error, _ []error) error { return goerrors.New(s[0]) },
 		Model: func(s []string, _ *Node, _ []*Node) *Node { return foreignLeaf(s[0], s[0]) }})
@@ -306,6 +315,15 @@ func init() {
 	uleaf("ut.RegNCLeaf", false, func(m string) error { return ut.RegNCLeaf{Msg: m, X: []int{1}} })
 	isl := uleaf("ut.IsLeaf", true, func(m string) error { return &ut.IsLeaf{Msg: m} })
 	_ = isl
+	osl := uleaf("ut.OsIsLeaf", true, func(m string) error { return &ut.OsIsLeaf{Msg: m} })
+	delete(OpByName, osl.Name)
+	Leaves = Leaves[:len(Leaves)-1]
+	osl.QuirkOf = "ut.IsLeaf"
+	// its Is method is lost in transit like that of ut.IsLeaf; what it adds
+	// is the special-case printing of sentinel-equivalent leaves, which
+	// concerns the rendering and redaction properties
+	osl.QuirkFor = []string{"C03", "C06", "C09", "C10", "C12"}
+	reg(osl)
 	uleaf("ut.RegIsLeaf", false, func(m string) error { return &ut.RegIsLeaf{Msg: m} })
 	uleaf("ut.AsLeaf", false, func(m string) error { return &ut.AsLeaf{Msg: m} })
 	uleaf("ut.FmtoLeaf", true, func(m string) error { return &ut.FmtoLeaf{Msg: m} })
@@ -411,10 +429,10 @@ func init() {
 	reg(&Op{Name: "Wrapf_empty", Kind: KWrap, Class: "stack", Lib: true,
 		Build: func(s []string, c error, _ []error) error { return errors.Wrapf(c, "") },
 		Model: func(s []string, c *Node, _ []*Node) *Node { return Stack(c) }})
-	annot("WithHintf", unsafe("arg"), func(s []string, c error) error { return errors.WithHintf(c, "hint %s", s[0]) },
-		func(s []string, n *Node) { n.Hint = "hint " + s[0] })
-	annot("WithDetailf", unsafe("arg"), func(s []string, c error) error { return errors.WithDetailf(c, "detail %s", s[0]) },
-		func(s []string, n *Node) { n.Detail = "detail " + s[0] })
+	annot("WithHintf", unsafe("fmt", "arg"), func(s []string, c error) error { return errors.WithHintf(c, pct(s[0])+" %s", s[1]) },
+		func(s []string, n *Node) { n.Hint = s[0] + " " + s[1] })
+	annot("WithDetailf", unsafe("fmt", "arg"), func(s []string, c error) error { return errors.WithDetailf(c, pct(s[0])+" %s", s[1]) },
+		func(s []string, n *Node) { n.Detail = s[0] + " " + s[1] })
 	annot("WithSafeDetails_s", safe("fmt", "safearg"),
 		func(s []string, c error) error { return errors.WithSafeDetails(c, pct(s[0])+" %s", errors.Safe(s[1])) },
 		func(s []string, n *Node) {})
@@ -426,16 +444,25 @@ func init() {
 	annot("WithTelemetry2", safe("key1", "key2"), func(s []string, c error) error { return errors.WithTelemetry(c, s[0], s[1]) },
 		func(s []string, n *Node) { n.Keys = []string{s[0], s[1]} })
 	annot("WithDomain", safe("domain"), func(s []string, c error) error { return errors.WithDomain(c, errors.NamedDomain(s[0])) },
-		func(s []string, n *Node) { n.Domain = sprintf("error domain: %q", s[0]) })
+		func(s []string, n *Node) { n.Domain = sprintf("error domain: %q", s[0]) }).Core = true
 	annot("WithIssueLink", safe("url", "detail"), func(s []string, c error) error {
 		return errors.WithIssueLink(c, errors.IssueLink{IssueURL: s[0], Detail: s[1]})
 	}, func(s []string, n *Node) { n.Links = []Link{{s[0], s[1]}} })
+	annot("WithIssueLink_detailonly", safe("detail"), func(s []string, c error) error {
+		return errors.WithIssueLink(c, errors.IssueLink{Detail: s[0]})
+	}, func(s []string, n *Node) { n.Links = []Link{{"", s[0]}} })
+	annot("WithIssueLink_urlonly", safe("url"), func(s []string, c error) error {
+		return errors.WithIssueLink(c, errors.IssueLink{IssueURL: s[0]})
+	}, func(s []string, n *Node) { n.Links = []Link{{s[0], ""}} })
 	annot("WithContextTags", slots(safe("key"), unsafe("value")), func(s []string, c error) error {
 		return errors.WithContextTags(c, tagCtx("k"+s[0], s[1]))
 	}, func(s []string, n *Node) { n.Tags = [][2]string{{"k" + s[0], s[1]}} })
 	annot("WithContextTags_safe", safe("key", "value"), func(s []string, c error) error {
 		return errors.WithContextTags(c, tagCtx("k"+s[0], errors.Safe(s[1])))
 	}, func(s []string, n *Node) { n.Tags = [][2]string{{"k" + s[0], s[1]}} })
+	annot("WithContextTags_strint", slots(safe("key"), unsafe("value")), func(s []string, c error) error {
+		return errors.WithContextTags(c, tagCtx("k"+s[0], s[1], "n", 7, "z", nil))
+	}, func(s []string, n *Node) { n.Tags = [][2]string{{"k" + s[0], s[1]}, {"n", "7"}, {"z", ""}} })
 	annot("WithContextTags_int2", nil, func(s []string, c error) error {
 		return errors.WithContextTags(c, tagCtx("n", 7, "empty", nil))
 	}, func(s []string, n *Node) { n.Tags = [][2]string{{"n", "7"}, {"empty", ""}} })
@@ -575,6 +602,16 @@ func init() {
 		func(s []string, n *Node) {})
 	annot("WrapWithGrpcCode_Unknown", nil, func(s []string, c error) error { return extgrpc.WrapWithGrpcCode(c, codes.Unknown) },
 		func(s []string, n *Node) { n.GRPC = int(codes.Unknown) })
+	// every defined gRPC code, and two undefined ones (Extras only)
+	for _, k := range GrpcCodeSweep {
+		k := k
+		op := annot(fmt.Sprintf("WrapWithGrpcCode#%d", k), nil, func(s []string, c error) error { return extgrpc.WrapWithGrpcCode(c, codes.Code(k)) },
+			func(s []string, n *Node) { n.GRPC = k })
+		delete(OpByName, op.Name)
+		Wrappers = Wrappers[:len(Wrappers)-1]
+		op.ExtraOnly = true
+		reg(op)
+	}
 	// an error that came over the network and is then wrapped locally
 	// (mixed decoded / native chain)
 	reg(&Op{Name: "HopThenWrap", Kind: KWrap, Slots: safe("msg"), Class: "prefix", Lib: true,
@@ -744,7 +781,9 @@ func init() {
 		}})
 	// the same error object reachable through two branches (a DAG)
 	reg(&Op{Name: "JoinShared", Kind: KMulti, Slots: safe("a", "b"), Class: "multi", Lib: true,
-		Build: func(s []string, c error, _ []error) error { return errors.Join(errors.Wrap(c, s[0]), errors.Wrap(c, s[1])) },
+		Build: func(s []string, c error, _ []error) error {
+			return errors.Join(errors.Wrap(c, s[0]), errors.Wrap(c, s[1]))
+		},
 		Model: func(s []string, c *Node, _ []*Node) *Node {
 			mkb := func(p string) *Node {
 				if p == "" {
@@ -764,6 +803,9 @@ func init() {
 			m.Lib = true
 			return m
 		}})
+	reg(&Op{Name: "GoJoin1", Kind: KMulti, NSide: 0, Class: "foreign-multi", Unreg: true,
+		Build: func(s []string, c error, side []error) error { return goerrors.Join(nil, c) },
+		Model: func(s []string, c *Node, side []*Node) *Node { return multi(c.Text, []*Node{c}) }})
 	reg(&Op{Name: "GoJoin2", Kind: KMulti, NSide: 1, Class: "foreign-multi", Unreg: true, Core: true,
 		Build: func(s []string, c error, side []error) error { return goerrors.Join(c, side[0]) },
 		Model: func(s []string, c *Node, side []*Node) *Node { return multi(joinText(br(c, side)), br(c, side)) }})
